@@ -187,7 +187,8 @@ def parse_template(path):
             if s.startswith("//@GHOST"):
                 # ghost (proof-only) lines spliced into the body: before an anchored line, or at the end of the body
                 mm = re.search(r"before=`([^`]*)`", s)
-                cur.ghosts.append([mm.group(1) if mm else None, []])
+                mt = re.search(r"tail=`([^`]*)`", s)
+                cur.ghosts.append([("tail:" + mt.group(1)) if mt else (mm.group(1) if mm else None), []])
                 mode = "ghost"
                 continue
             if s.startswith("//@WRAPTEXT"):
@@ -315,7 +316,38 @@ def render(scratch, template_path, vacuity=False):
             gtext = "\n".join(glines) + "\n"
             if not re.match(r"\s*proof\s*\{", gtext):
                 raise Undecided("%s: ghost splice must be a `proof { .. }` block" % what)
-            if ganchor is None:
+            if ganchor is not None and ganchor.startswith("tail:"):
+                # the tail expression E of the body (anchored by the start of its first line, must run to the closing
+                # brace and not end in `;`) is bound to the result name: `let r = E; proof {..} r` (same value returned)
+                if not p.result:
+                    raise Undecided("%s: tail ghost splice needs result=<name>" % what)
+                blines = body2.splitlines(keepends=True)
+                hits = [i for i, l in enumerate(blines) if _norm(l).startswith(_norm(ganchor[5:]))]
+                if len(hits) != 1:
+                    raise Undecided("LOST-ANCHOR %s: tail anchor %r matches %d lines" % (what, ganchor[5:], len(hits)))
+                k = body2.rstrip().rfind("}")
+                pre = "".join(blines[:hits[0]])
+                tail = body2[len(pre):k].rstrip()
+                if tail.endswith(";") or not tail:
+                    raise Undecided("%s: anchored text is not the tail expression of the body" % what)
+                # the tail must be one expression: braces/parens balanced and no statement separator at depth 0
+                depth, i_ = 0, 0
+                while i_ < len(tail):
+                    j_ = _lex_skip(tail, i_)
+                    if j_ is not None:
+                        i_ = j_
+                        continue
+                    if tail[i_] in "([{":
+                        depth += 1
+                    elif tail[i_] in ")]}":
+                        depth -= 1
+                    elif tail[i_] == ";" and depth == 0:
+                        raise Undecided("%s: anchored tail contains a statement separator" % what)
+                    i_ += 1
+                ind = re.match(r"\s*", blines[hits[0]]).group(0)
+                body2 = pre + ind + "let %s = %s;\n" % (p.result, tail.strip()) + gtext + ind + p.result + "\n" + body2[k:]
+                rep["transformations"].append("tail expression bound to the result name: `let %s = <tail>; proof {..} %s` (ghost proof block of %d lines after it)" % (p.result, p.result, len(glines)))
+            elif ganchor is None:
                 k = body2.rstrip().rfind("}")
                 body2 = body2[:k] + gtext + body2[k:]
                 rep["transformations"].append("ghost proof block (%d lines) spliced at the end of the body" % len(glines))
